@@ -42,6 +42,12 @@ def main(argv=None):
         rc = chk.finish()
     except AnalysisError as e:
         print("ANALYSIS-ERROR property=%s: %s" % (pid, e))
+        if chk.findings:
+            # rules that could decide have already found violations: report them (exit 1); the
+            # rule that could not decide is named above and never counts as a pass
+            chk.extra["analysis_error"] = str(e)
+            if chk.finish() == 1:
+                return 1
         return 2
     except Exception:
         traceback.print_exc()
